@@ -126,3 +126,110 @@ func TestVX_C06Huge(t *testing.T) {
 		}
 	}
 }
+
+type c07hugeCase struct {
+	What string
+	Len  uint64
+	NLen int
+	Tag  int
+}
+
+// TestVX_C07Huge: byte lengths of 2^32 and more - where a length kept in 32 bits wraps to a small number. Nothing is
+// allocated: the long parts are untouched anonymous mappings (the kernel's zero page).
+func TestVX_C07Huge(t *testing.T) {
+	r := vx.Begin("C07", partName(), "Open with byte lengths beyond 2^32: (a) an authentic message ct||tag (plaintext 1, 33 [thorough: 0, 1, 16, 33] bytes) followed by 2^32 [thorough: and 2^33] zero bytes, given as one ciphertext - the tag is no longer at the end and the message must be rejected (accepting it needs a GHASH collision); (b) additional data of 2^32+5 zero bytes: the authentic message for that length (gcmref zero-AAD shortcut) is accepted, the authentic message for 5 zero bytes of additional data is rejected, and with 5 bytes of additional data the other way round. Nonce 12/16, tags 16/12")
+	defer r.End()
+	selfCheck()
+	key := keyByName("std")
+	n := 0
+	extras := []uint64{1 << 32}
+	if vx.Thorough() {
+		extras = append(extras, 1<<33)
+	}
+	for _, extra := range extras {
+		for _, pl := range []int{0, 1, 16, 33} {
+			for _, par := range [][2]int{{12, 16}, {12, 12}, {16, 16}} {
+				if !vx.Thorough() && (pl == 0 || pl == 16 || par[1] == 12) {
+					continue
+				}
+				n++
+				if !vx.MineIdx(n) {
+					continue
+				}
+				nl, tag := par[0], par[1]
+				a, path, err := newAEAD(key, nl, tag)
+				if err != nil {
+					r.Add("unsupported_on_this_path", 1)
+					continue
+				}
+				r.Eval(1)
+				cs := c07hugeCase{"authentic-message-plus-appended-zeros", extra + uint64(pl+tag), nl, tag}
+				nonce, pt, aad := fillLen("nonce", nl), fillLen("pt", pl), fillLen("aad", 5)
+				sealed := gcmref.Seal(refCipher(key), nonce, pt, aad, tag)
+				big, err := syscall.Mmap(-1, 0, int(extra)+len(sealed), syscall.PROT_READ|syscall.PROT_WRITE, syscall.MAP_ANON|syscall.MAP_PRIVATE|syscall.MAP_NORESERVE)
+				if err != nil {
+					r.NotExhaustive(fmt.Sprintf("no address space for a %d-byte ciphertext", int(extra)+len(sealed)))
+					continue
+				}
+				copy(big, sealed)
+				var out []byte
+				var oerr error
+				kind, msg := vx.Try(func() { out, oerr = a.Open(nil, nonce, big, aad) })
+				if kind != "" {
+					r.Violation("open:huge:panic", fmt.Sprintf("Open panicked on a %d-byte ciphertext: %s", len(big), msg), cs)
+				} else if oerr == nil {
+					r.Violation("open:huge:accepts-appended-bytes", fmt.Sprintf("Open accepted an authentic %d-byte message with %d zero bytes appended (ciphertext length %d >= 2^32; nonce=%d, tag=%d, path=%s) and returned %d bytes", len(sealed), extra, len(big), nl, tag, path, len(out)), cs)
+				}
+				syscall.Munmap(big)
+				r.Shape(fmt.Sprintf("appended:%d:pl%d:n%d:t%d:%s", extra, pl, nl, tag, path))
+				r.Sample(cs)
+			}
+		}
+	}
+	for _, par := range [][2]int{{12, 16}, {12, 12}, {16, 16}} {
+		n++
+		if !vx.MineIdx(n) {
+			continue
+		}
+		nl, tag := par[0], par[1]
+		a, path, err := newAEAD(key, nl, tag)
+		if err != nil {
+			r.Add("unsupported_on_this_path", 1)
+			continue
+		}
+		r.Eval(4)
+		L := uint64(1<<32 + 5)
+		cs := c07hugeCase{"zero-aad", L, nl, tag}
+		nonce, pt := fillLen("nonce", nl), fillLen("pt", 19)
+		forLong := gcmref.SealZeroAAD(refCipher(key), nonce, pt, L, tag)
+		forShort := gcmref.SealZeroAAD(refCipher(key), nonce, pt, 5, tag)
+		if !bytes.Equal(forShort, gcmref.Seal(refCipher(key), nonce, pt, make([]byte, 5), tag)) {
+			panic("harness: zero-AAD shortcut disagrees with gcmref")
+		}
+		long := zeroPages(int(L))
+		short := make([]byte, 5)
+		type tc struct {
+			name   string
+			ct     []byte
+			aad    []byte
+			accept bool
+		}
+		for _, c := range []tc{{"long-aad:own-message", forLong, long, true}, {"long-aad:message-for-5-bytes", forShort, long, false},
+			{"short-aad:own-message", forShort, short, true}, {"short-aad:message-for-2^32+5-bytes", forLong, short, false}} {
+			var back []byte
+			var oerr error
+			kind, msg := vx.Try(func() { back, oerr = a.Open(nil, nonce, c.ct, c.aad) })
+			switch {
+			case kind != "":
+				r.Violation("open:huge:panic", fmt.Sprintf("%s: %s", c.name, msg), cs)
+			case c.accept && (oerr != nil || !bytes.Equal(back, pt)):
+				r.Violation("open:huge:rejects-authentic:aad", fmt.Sprintf("%s (nonce=%d, tag=%d, path=%s): authentic message rejected: %v", c.name, nl, tag, path, oerr), cs)
+			case !c.accept && oerr == nil:
+				r.Violation("open:huge:accepts-wrong-aad-length", fmt.Sprintf("%s (nonce=%d, tag=%d, path=%s): a message authenticated for additional data of another length (congruent mod 2^32) was accepted", c.name, nl, tag, path), cs)
+			}
+		}
+		syscall.Munmap(long)
+		r.Shape(fmt.Sprintf("aad:%d:n%d:t%d:%s", L, nl, tag, path))
+		r.Sample(cs)
+	}
+}
